@@ -163,6 +163,28 @@ class QFDriver:
         ctx, o = self.ctx, self.obj
         kind = op[0]
         legit = self._o("legit") or self.noexc
+        if kind == "lsr":
+            # look-up, shift, remove: a stored hash x is looked up (hit), another hash is added (entries of x's cluster may move),
+            # then x is removed - with NO other look-up in between; whatever the filter remembered from the look-up is stale now
+            if not self.model:
+                return self.step(["add", op[2], op[3]])
+            x = sorted(self.model)[op[1] % len(self.model)]
+            st, r = self.call(o.check_alt, x)
+            if self._o("set"):
+                ctx.check(self._o("set"), r is True, lambda: f"stored hash {x:#x} is reported absent")
+            keep = getattr(self, "_skip_verify", False)
+            self._skip_verify = True
+            try:
+                self.step(["add", op[2], op[3]])
+            finally:
+                self._skip_verify = keep
+            if x in self.model:
+                status, r = self.call(o.remove_alt, x)
+                self.model.discard(x)
+                self._layout_feats(x, True)
+                ctx.op("raw_remove", hex(x), status)
+            self.feats.add("lookup_shift_remove")
+            return self.verify(f"after {op}")
         if kind in ("add", "addkey", "raw_add"):
             if kind == "add":
                 h = self.H(op[1], op[2])
@@ -295,6 +317,8 @@ class QFDriver:
         for i, op in enumerate(ops):
             # long constructions (e.g. filling a 512-slot table completely): the full comparison only every n-th step and at the end
             self._skip_verify = bool(every) and i % every != 0 and i < len(ops) - 3
+            if self._skip_verify:
+                self.feats.add("steps_without_lookups")
             self.step(op)
         self._skip_verify = False
         for f in self.feats:
@@ -315,19 +339,31 @@ def case_strategy(tier, max_ops=60):
         step = draw(st.sampled_from([1, 1, 1, 2, 8, 32]))
         tops = sorted({(base + i * step) % 256 for i in range(ntops)} | set(draw(st.lists(st.integers(0, 255), max_size=2))))
         lows = sorted({0, 1, 2, 3} | {draw(st.integers(0, 2 ** 24 - 1))})
+        q = draw(st.sampled_from([3, 3, 3, 4, 4, 5]))
+        dense = draw(st.integers(0, 3)) == 0
+        if dense:
+            # EVERY quotient of a small table with the same two or three remainders: each insert into an earlier run shifts later
+            # entries into slots that held an equal remainder of another quotient a moment ago
+            q = draw(st.sampled_from([3, 3, 4]))
+            tops = [i << (8 - q) for i in range(2 ** q)]
+            lows = [0, 1, 2][: draw(st.integers(2, 3))]
         ti, ri = st.integers(0, len(tops) - 1), st.integers(0, len(lows) - 1)
         ops = [st.tuples(st.just("add"), ti, ri)] * 6 + [st.tuples(st.just("remove"), ti, ri)] * 3 + [
             st.tuples(st.just("addkey"), st.integers(0, 5)), st.tuples(st.just("removekey"), st.integers(0, 5)),
             st.tuples(st.just("resize"), st.sampled_from([None, None, 1, -1, -2, 2, 0])),
             st.tuples(st.just("merge"), st.lists(st.tuples(ti, ri), max_size=6), st.integers(3, 6)),
             st.tuples(st.sampled_from(["raw_add", "raw_remove"]), st.integers(0, 2 ** 32 - 1)),
+            st.tuples(st.just("lsr"), st.integers(0, 40), ti, ri),
         ]
         return {
-            "q": draw(st.sampled_from([3, 3, 3, 4, 4, 5])), "auto": draw(st.booleans()),
+            "q": q, "auto": draw(st.booleans()), "dense": dense,
             "mlf": draw(st.sampled_from([None, None, None, 0.5, 0.95, 1.0, 0.25])),
             "hash": draw(st.sampled_from(["default", "default", "sha", "falsy_sha"])),
             "tops": tops, "lows": lows, "pool": draw(gen.pool_st(2, 6)),
             "ops": [list(o) for o in draw(st.lists(st.one_of(*ops), min_size=4, max_size=max_ops))],
+            # look-ups after every step would refresh anything the filter remembers from its last look-up before the next update
+            # can trip over it: in a third of the cases the comparison with the model runs only every n-th step (and at the end)
+            "verify_every": draw(st.sampled_from([0, 0, 0, 0, 2, 3, 7] if not dense else [0, 2, 3, 3, 7])),
         }
 
     return case()
